@@ -428,6 +428,88 @@ def run(ctx, col):
     )
 
 
+# parts built only from explicitly numbered registers (which need neither `hi` nor `pkt` to be written), plus one
+# construct that brings in `hi`, `pkt`, both or none: the flags must follow the text, part by part
+META_BASES = ["R1 = 5;", "P0 = 0xff;", ""]
+META_CONSTRUCTS = [
+    "", "STORE_SLOT_CANCELLED(pkt, slot);", "cancel_slot;", "R2 = get_npc(pkt);", "R2 = HEX_REG_ALIAS_PC;", "R2 = R3;", "R2 = RsV;", "RdV = 1;", "R2 = siV;", "R2 = NsN;", "R2 = P0_NEW;", "R2 = PuN;",
+    "mem_store_u8(0x10, 1);", "R2 = mem_load_u8(0x10);", "JUMP(0x100);", "R2 = clz32(5);", "set_usr_field(bundle, HEX_REG_FIELD_USR_OVF, 1);", "R2 = get_usr_field(bundle, HEX_REG_FIELD_USR_OVF);", "trap(0, 1);",
+    "HEX_REG_ALIAS_LR = 4;", "R2 = HEX_REG_ALIAS_LR;", "R5:4 = 7;", "R2 = extract32(0xff00, 8, 8);", "R2 = 1 ? 5 : RsV;", "R2 = sizeof(RsV);", "int32_t t = 3; R2 = t;", 'fatal("C is broken");',
+]
+META_CONTEXTS = ["%s", "if (1) { %s }", "{ %s }", "for (i = 0; i < 2; i++) { %s }"]
+
+
+def meta_parts():
+    out = []
+    for b in META_BASES:
+        for c in META_CONSTRUCTS:
+            for cx in META_CONTEXTS:
+                t = "{ %s %s }" % (b, cx % c if c else "")
+                if t not in out:
+                    out.append(t)
+    return out
+
+
+def _meta_work(item):
+    fmt, texts = item
+    comp = _MJOB["comps"][fmt]
+    pc = _MJOB["pc"]
+    trees = []
+    for t in texts:
+        r = pc.get(t)
+        if r[0] != "ok":
+            return ("parse-rejected",)
+        trees.append(r[1])
+    v = drive.transform_fresh(comp, "V11_meta", trees, list(texts))
+    if v[0] != "ok":
+        return ("rejected", v[1])
+    return ("ok", v[1])
+
+
+_MJOB = {}
+
+
+def generated_metadata(ctx):
+    """needs_hi / needs_pkt / getter records of generated one- and two-part instructions, both layouts."""
+    from vf import il
+
+    parts = meta_parts()
+    pc = drive.ParseCache("c11-meta")
+    pc.ensure(parts, seed=ctx.seed)
+    pc.save()
+    comps = {f: drive.get_compiler(f) for f in ("stmt", "exec")}
+    _MJOB.update(comps=comps, pc=pc)
+    singles = [(f, (t,)) for f in ("stmt", "exec") for t in parts]
+    # two-part instructions: the flags are per part (a part must not inherit the other part's flag)
+    step = max(1, len(parts) // 24)
+    sl = parts[::step]
+    pairs = [(f, (a, b)) for f in ("stmt", "exec") for a in sl for b in sl if a != b]
+    items = singles + pairs
+    res = core.pmap(_meta_work, items, seed=ctx.seed)
+    n_ok = n_rej = 0
+    combos = set()
+    for (fmt, texts), r in zip(items, res):
+        if r[0] != "ok":
+            n_rej += 1
+            continue
+        n_ok += 1
+        rec = r[1]
+        k = len(texts)
+        if not (len(rec["rzil"]) == len(rec["needs_hi"]) == len(rec["needs_pkt"]) == len(rec["getter"]["name"]) == len(rec["getter"]["fcn_decl"]) == k):
+            ctx.report({"parts": list(texts), "layout": fmt, "why": "companion record lengths"}, None, what="generated instruction %s: companion record lengths differ from the number of parts" % (list(texts),))
+            continue
+        if len(set(rec["getter"]["name"])) != k:
+            ctx.report({"parts": list(texts), "layout": fmt, "getter": rec["getter"]["name"]}, None, what="generated instruction: getter names of the parts are not distinct: %s" % rec["getter"]["name"])
+        for pi, text in enumerate(rec["rzil"]):
+            mh, mp = il.mentions(text, "hi"), il.mentions(text, "pkt")
+            combos.add((mh, mp))
+            for var, m, flag in (("hi", mh, rec["needs_hi"][pi]), ("pkt", mp, rec["needs_pkt"][pi])):
+                if m and not flag:
+                    ctx.report({"parts": list(texts), "part": pi, "layout": fmt, "why": "text mentions %s but needs_%s is false" % (var, var), "text_tail": text[-400:]}, None,
+                               what="generated part %s (%s layout): needs_%s is false although the body uses %s" % (texts[pi], fmt, var, var))
+    return {"generated_metadata_instructions": n_ok, "generated_metadata_rejected": n_rej, "generated_metadata_hi_pkt_mention_combinations": sorted(combos)}
+
+
 def metadata_checks(ctx):
     """C11 second half: needs_hi / needs_pkt, getter names."""
     from vf import il
@@ -485,7 +567,9 @@ def metadata_checks(ctx):
                 ctx.report({"sub_routine": n, "why": "%s used but not declared" % var}, None, what="sub-routine %s uses %s without declaring it" % (n, var))
             if decl in body and not re.search(r"\bbundle\b", header):
                 ctx.report({"sub_routine": n, "why": "prologue uses bundle but the routine has no bundle parameter"}, None, what="sub-routine %s: prologue needs bundle" % n)
-    return {"metadata_parts_checked": n_parts, "getter_names_checked": len(allg)}
+    out = {"metadata_parts_checked": n_parts, "getter_names_checked": len(allg)}
+    out.update(generated_metadata(ctx))
+    return out
 
 
 def replay(ctx, path, col):
